@@ -142,8 +142,12 @@ def run(ctx):
                 pairs.append(('abi', (d, av, m, f), (d, av2, m, f)))
         d2 = rng.choice([x for x in lib.DISTS if x != d])
         pairs.append(('dist', (d, av, m, f), (d2, av, m, f)))
-        if d == 'arch' and d2 != 'opensuse':
-            pairs.append(('dist', (d, av, m, f), ('opensuse', av, m, f)))
+        if d == 'arch':
+            # always: a distribution with another package family and guarded paragraphs, and one whose configure step
+            # differs with the version
+            for d3 in ('opensuse', 'debian'):
+                if d3 != d2:
+                    pairs.append(('dist', (d, av, m, f), (d3, av, m, f)))
     cfgs = sorted({p[1] for p in pairs} | {p[2] for p in pairs})
 
     def build(c):
@@ -194,6 +198,17 @@ def run(ctx):
                 'configure': lambda f: f in ub or f in r41,
                 'full': lambda f: f in full_files or f.startswith('systemd/'),
                 'dist_files': lambda f: dist_files(f, ca[0], cb[0])}
+        if axis == 'abi':
+            # under ABI 4 the profiles of the overwrite list carry the package suffix: compare them with their ABI 3 name
+            def unsuffix(D):
+                res = {}
+                for k, v in D.items():
+                    b = os.path.basename(k)
+                    if b.endswith('.apparmor.d') and b[:-len('.apparmor.d')] in overwrite and os.path.dirname(k) == 'apparmor.d':
+                        k = k[:-len('.apparmor.d')]
+                    res[k] = v
+                return res
+            A, B = unsuffix(A), unsuffix(B)
         for f in sorted(set(A) | set(B)):
             if f in A and f in B:
                 if A[f] == B[f]:
